@@ -1939,18 +1939,48 @@ func ruleCDC8(w *World, r *Report) {
 					}
 				}
 			}
-			isAggLookup := func(in ssa.Instruction) bool {
-				lk, ok := in.(*ssa.Lookup)
-				if !ok || !lk.CommaOk {
+			// "known" means known to this log OR to the snapshot: the test is a call of a helper that looks the name up in
+			// the aggregation map and falls back to DB.GetVectorIndex (the restoring look-up the other arms use)
+			knowsBoth := func(f *ssa.Function) bool {
+				agg, db := false, false
+				for _, b := range f.Blocks {
+					for _, in := range b.Instrs {
+						if lk, ok := in.(*ssa.Lookup); ok {
+							if mt, ok := lk.X.Type().Underlying().(*types.Map); ok && strings.HasSuffix(mt.Elem().String(), "indexState") {
+								agg = true
+							}
+						}
+						if c, ok := in.(*ssa.Call); ok && calleeObj(&c.Call) == getIdx {
+							db = true
+						}
+					}
+				}
+				return agg && db
+			}
+			isKnownTest := func(in ssa.Instruction) bool {
+				c, ok := in.(*ssa.Call)
+				if !ok {
 					return false
 				}
-				mt, ok := lk.X.Type().Underlying().(*types.Map)
-				return ok && strings.HasSuffix(mt.Elem().String(), "indexState")
+				for _, leaf := range valueRoots(c.Call.Value) {
+					if mc, ok := leaf.(*ssa.MakeClosure); ok {
+						if cf, ok := mc.Fn.(*ssa.Function); ok && knowsBoth(cf) {
+							return true
+						}
+					}
+				}
+				if g := c.Call.StaticCallee(); g != nil && knowsBoth(g) {
+					return true
+				}
+				return false
 			}
 			for i, rg := range regs {
 				rr := rg
-				ok, wit := mustPassGuard(fn, func(in ssa.Instruction) bool { return in == rr }, isAggLookup, func(in ssa.Instruction) ssa.Value { return extractOfValue(in.(*ssa.Lookup), 1) }, false, nil)
-				r.Cond(ok, "CDC-8", fmt.Sprintf("arm:VCREATE:registers-only-unknown-names#%d", i+1), w.Pos(rg.Pos()), "the state is put into the aggregation map only on the not-present edge of a look-up", "the VCREATE arm (re)registers the aggregation state of a name the log already knows: a duplicate VCREATE — journaled by the live engine before it rejected the request with 'already exists' — replaces the state that holds every vector journaled so far, and the next restart loses them", w.witness(wit)...)
+				ok, wit := false, []ssa.Instruction(nil)
+				if len(findInstrs(fn, isKnownTest)) > 0 {
+					ok, wit = mustPassGuard(fn, func(in ssa.Instruction) bool { return in == rr }, isKnownTest, func(in ssa.Instruction) ssa.Value { return extractOfValue(in.(*ssa.Call), 1) }, false, nil)
+				}
+				r.Cond(ok, "CDC-8", fmt.Sprintf("arm:VCREATE:registers-only-unknown-names#%d", i+1), w.Pos(rg.Pos()), "the state is put into the aggregation map only on the unknown edge of a look-up that consults both the log's own states and the snapshot-restored indexes", "the VCREATE arm registers an aggregation state for a name that is already known — to this log, or to the snapshot (a test of the aggregation map alone does not see restored indexes): a duplicate VCREATE, journaled by the live engine before it rejected the request with 'already exists', replaces or masks the state of the existing index, and later VADD/VDEL/VMETA records for it are lost at the next restart", w.witness(wit)...)
 			}
 			if len(regs) == 0 {
 				r.Und("CDC-8", "arm:VCREATE:registers-only-unknown-names", w.Pos(arm.Clause.Pos()), "the VCREATE arm no longer registers an aggregation state (shape not recognised)")
@@ -1964,6 +1994,59 @@ func ruleCDC8(w *World, r *Report) {
 				}
 				r.Cond(badN == 0, "CDC-8", "arm:VCREATE:fresh-state-only", pos, fmt.Sprintf("all %d configuration stores of the arm go into a state object the arm allocated itself", n), "the VCREATE arm writes configuration into an aggregation state it looked up: a duplicate VCREATE (journaled by the live engine before it rejected the request) rewrites metric, precision and options of the existing index on the next restart")
 			}
+		}
+	}
+	// apply phase: a configuration value the log sets is applied also when it is EMPTY (rules cleared, list emptied):
+	// no setter of the live index is reached only on the non-empty edge of a length test of the value it sets
+	if fn := w.SSAFunc(fi.Obj); fn != nil {
+		k := 0
+		for _, in := range findInstrs(fn, func(in ssa.Instruction) bool {
+			c, ok := in.(*ssa.Call)
+			if !ok {
+				return false
+			}
+			o := calleeObj(&c.Call)
+			return o != nil && relPkg(o) == "pkg/core/hnsw" && strings.HasPrefix(o.Name(), "Set") && len(c.Call.Args) == 2
+		}) {
+			c := in.(*ssa.Call)
+			arg := c.Call.Args[1]
+			if !isSliceType(arg.Type()) {
+				continue
+			}
+			k++
+			bad := false
+			var at token.Pos
+			for _, b := range fn.Blocks {
+				for _, x := range b.Instrs {
+					bo, ok := x.(*ssa.BinOp)
+					if !ok {
+						continue
+					}
+					var lenCall *ssa.Call
+					for _, o := range []ssa.Value{bo.X, bo.Y} {
+						if lc, ok := o.(*ssa.Call); ok {
+							if _, isLen := isBuiltinCall(lc, "len"); isLen && len(lc.Call.Args) == 1 && sameVal(lc.Call.Args[0], arg) {
+								lenCall = lc
+							}
+						}
+					}
+					if lenCall == nil {
+						continue
+					}
+					t, f := condEdges(bo)
+					for _, e := range append(t, f...) {
+						sb := e.from.Succs[e.succ]
+						if len(sb.Preds) == 1 && (sb == in.Block() || sb.Dominates(in.Block())) {
+							bad, at = true, bo.Pos()
+						}
+					}
+				}
+			}
+			pos := w.Pos(in.Pos())
+			if bad {
+				pos = w.Pos(at)
+			}
+			r.Cond(!bad, "CDC-8", fmt.Sprintf("apply:%s#%d:also-for-the-empty-value", calleeObj(&c.Call).Name(), k), pos, "the setting is applied whatever the length of the value", "replayAOF applies "+calleeObj(&c.Call).Name()+" to the live index only when the journaled value is non-empty: clearing the setting (an empty list) after a snapshot is not applied to the snapshot-restored index, and the old value is back after the restart")
 		}
 	}
 	// KV: a DEL must reach the restored store, not only the aggregation map of this log
